@@ -10,6 +10,8 @@
 package main
 
 import (
+	"time"
+
 	"verif/checks/c09/frontclient"
 	"verif/checks/c09/frontdocs"
 	"verif/checks/c09/fronthttp"
@@ -21,8 +23,15 @@ func main() {
 	run.SetRule("three fronts: (a) generated HTTP requests against both routers, (b) generated JSON/token documents against decoders, verifiers and endpoints, (c) generated provider answers against the client helpers; a case is non-trivial when it reached library code beyond routing (a handler wrote a response / a decoder or helper returned); distinct = distinct (front, target, input class, outcome class) vectors")
 	run.Assume("handlers are called in-process (a panic is not converted into a dropped connection by net/http)",
 		"a panic is attributed by its stack: first non-runtime frame under the library tree = violation, under /verif = harness bug (inconclusive)")
-	fronthttp.Run(run)
-	frontdocs.Run(run)
-	frontclient.Run(run)
+	wall := map[string]float64{}
+	for _, f := range []struct {
+		name string
+		run  func(*ev.Run)
+	}{{"http", fronthttp.Run}, {"docs", frontdocs.Run}, {"client", frontclient.Run}} {
+		t0 := time.Now()
+		f.run(run)
+		wall[f.name] = float64(time.Since(t0).Milliseconds()) / 1000
+	}
+	run.Extra("front_wall_seconds_informational", wall)
 	run.Finish()
 }
